@@ -7,8 +7,11 @@ import Driver.C11
   * copy: the copy is equal, and mutating either side leaves the other unchanged (facts measured by the harness);
   * every walk log: Enter/Visit/Exit properly nested, Consume followed by the Exit of the same node, no event after
     SetDone/SetError, returned value agrees with the log (`judgeRun`, proved to accept every log of the model);
-  * never-acting structural walk: returns nil iff the value has no nil branch (per the SCHEMA, not the branch
-    table) and then enters exactly the schema's nodes (+ operator leaves), each once;
+  * never-acting structural walk: per the SCHEMA (not the branch table) — a value without nil branches is walked to
+    the end entering exactly the schema's nodes (+ operator leaves), each once; a value with a nil slice element
+    makes it return the constructor's error. A typed-nil pointer inside an interface-typed field is neither
+    "optional unset" nor clearly a "nil branch" (some constructors skip it via isNilNode, some report it): the
+    monitor accepts both outcomes there (such values are outside the property's quantifier);
   * never-acting semantic walk enters a sub-multiset of what the structural walk enters.
 -/
 namespace Driver.C11Mon
@@ -58,6 +61,18 @@ partial def subMulti : List String → List String → Bool
   | _ :: _, [] => false
   | a :: as, b :: bs => if a == b then subMulti as bs else if b < a then subMulti (a :: as) bs else false
 
+/-- multiset difference of sorted lists -/
+partial def diffMulti : List String → List String → List String
+  | [], _ => []
+  | as, [] => as
+  | a :: as, b :: bs => if a == b then diffMulti as bs else if a < b then a :: diffMulti as (b :: bs) else diffMulti (a :: as) bs
+
+/-- the schema's table with typed-nil pointers treated as unset optionals -/
+def lenientTab : BranchTab :=
+  (schemaTab T).map (fun o => o.map (fun es => es.map (fun e => match e.tgt with
+    | .field _ => { e with nn := true }
+    | _ => e)))
+
 def judgeWalk (w : Walk) : Option String :=
   match parseRes w.res with
   | none => some s!"walk-{w.res} {w.sc.text}"
@@ -102,16 +117,16 @@ def judge (items : List Sexp) : String :=
               match full with
               | none => "ok"
               | some w =>
+                let lenient := treeOf T lenientTab val
                 if st.good && w.res != "ok" then s!"reject structural-walk-fails-on-clean-value {w.res}"
-                else if !st.good && w.res == "ok" then "reject nil-branch-skipped"
+                else if !lenient.good && w.res == "ok" then "reject nil-branch-skipped"
                 else if !st.good then "ok"
                 else if toString want.length != nodesTok then
                   s!"reject node-count schema={want.length} reflection={nodesTok}"
                 else
                   let got := sorted ((enters w.log).filter (fun n => !T.scalarLeaves.contains n))
                   if got != want then
-                    let missing := want.filter (fun n => !got.contains n)
-                    s!"reject structural-misses-node missing={missing.eraseDups} entered={got.length} schema={want.length}"
+                    s!"reject structural-misses-node missing={(diffMulti want got).eraseDups} extra={(diffMulti got want).eraseDups} entered={got.length} schema={want.length}"
                   else match sem with
                     | some ws' =>
                       if ws'.res == "ok" && !subMulti (sorted (enters ws'.log)) (sorted (enters w.log)) then
